@@ -181,12 +181,27 @@ def gen(out):
     rel_h = "src/frontend/http/dispatcher.rs"
     h = read(rel_h)
     ex = fn_body(h, rel_h, "extract_http_status_from_response")
-    m1 = re.search(r"output\.len\(\)\.min\((\d+)\)", ex)
     m2 = re.search(r"if output\.len\(\) < (\d+)", ex)
-    if not m1 or not m2 or 'starts_with(b"{")' not in ex or 'w == b"status"' not in ex:
+    m3 = re.search(r"output\.len\(\)\.min\((\d+)\)\s*\}", ex)
+    if not m2 or not m3 or 'starts_with(b"{")' not in ex or 'w == b"status"' not in ex:
         raise Missing(f"{rel_h}: extract_http_status_from_response shape")
-    out.append(f"Definition render_http_sniff_window : N := {int(m1.group(1))}%N.")
+    # where the word "status" is looked for: a fixed window (`let check_len = output.len().min(N)`, the pinned tree) or the
+    # part that is parsed anyway (`output[..parse_len]`, after fix c214409)
+    m1 = re.search(r"let check_len = output\.len\(\)\.min\((\d+)\)", ex)
+    if m1 and "output[..check_len].windows(6)" in ex:
+        out.append(f"Definition render_http_sniff_window : option N := Some {int(m1.group(1))}%N.")
+    elif "output[..parse_len].windows(6)" in ex and ex.index("let parse_len") < ex.index("output[..parse_len].windows(6)"):
+        out.append("Definition render_http_sniff_window : option N := None.")
+    else:
+        raise Missing(f"{rel_h}: extract_http_status_from_response: where \"status\" is searched")
+    # text responses: "<3 digits> <message>" read as the status (after fix c214409) or always 200
+    text_hdr = ("output[..3].iter().all(|b| b.is_ascii_digit())" in ex and "output[3] == b' '" in ex
+                and "return map_status_code_to_http(code);" in ex)
+    if not text_hdr and "is_ascii_digit" in ex:
+        raise Missing(f"{rel_h}: extract_http_status_from_response: unrecognised text header handling")
+    out.append(f"Definition render_http_text_header : bool := {coqb(text_hdr)}.")
     out.append(f"Definition render_http_parse_full_below : N := {int(m2.group(1))}%N.")
+    out.append(f"Definition render_http_parse_prefix : N := {int(m3.group(1))}%N.")
     mp = fn_body(h, rel_h, "map_status_code_to_http")
     arms = re.findall(r"(\d+)\s*=>\s*hyper::StatusCode::(\w+)", mp)
     names = {200: "OK", 400: "BAD_REQUEST", 401: "UNAUTHORIZED", 403: "FORBIDDEN", 404: "NOT_FOUND",
